@@ -529,6 +529,13 @@ def cfd_options(rng, cplx):
         "do_replace_functions": rng.random() < 0.3,
         "complex_mode": cplx,
     }
+    # the remaining documented switches: whatever they are set to, a form that is not multilinear must not come back
+    if rng.random() < 0.3:
+        o["do_apply_restrictions"] = rng.random() < 0.5
+    if rng.random() < 0.3:
+        o["do_apply_default_restrictions"] = rng.random() < 0.5
+    if rng.random() < 0.2:
+        o["do_append_everywhere_integrals"] = rng.random() < 0.5
     return o
 
 
@@ -650,8 +657,9 @@ def case(ctx, i, rng):
     del RECORD[:]
     ctx.count("cfd_calls")
     raised = None
+    fd = None
     try:
-        compute_form_data(form, **opts)
+        fd = compute_form_data(form, **opts)
     except ArityMismatch as ex:
         raised = "ArityMismatch"
         ctx.covered("rejection_reasons", str(ex)[:34])
@@ -670,6 +678,16 @@ def case(ctx, i, rng):
         ctx.count("cfd_raised_other")
     if not records:
         ctx.count("cfd_arity_check_not_reached")
+        if raised is None and fd is not None and fd.integral_data:
+            # compute_form_data returned form data WITH integrals although the arity check never ran: the form was accepted
+            # all the same, so the original integrand is judged as accepted (whatever option switched the check off).
+            # (No integral left after preprocessing = nothing to check: the integrand folded to zero.)
+            ctx.count("events")
+            ctx.count("cfd_returned_without_arity_check")
+            on = sorted(k for k, v in opts.items() if v)
+            off = sorted(k for k, v in opts.items() if v is False)
+            verdict, nontrivial = judge(ctx, rng, "compute_form_data-returned-unchecked", I, args, cplx, c["cell"], c["gdim"], c["itype"],
+                                        dict(info, options_on=on, options_off=off, original_integrand=safe_str(I, 600)))
     for what, expr, arguments, cm, msg in records:
         ctx.count("events")
         ctx.count("cfd_events")
